@@ -1,28 +1,44 @@
-NOTES = ("All verdicts come from bounded exhaustive exploration of the real menpo code (DESIGN.md). "
-         "Known, unrepaired defects are listed in known_findings.json and matched by footprint predicates.")
-CHECKS = {
- "C19": {
-  "text": "Every program of LazyList operations up to the depth bound (2 quick; 3 wide + 4 narrow thorough) over 6 base configurations is executed on the real LazyList and on a plain-list-of-expression-trees model; laziness is decided from an evaluation log, non-mutation by re-reading every live list after every step. Bounded exhaustive: no sampling.",
-  "design_ref": "DESIGN.md 3/C19",
-  "note": "lists capped at 8 elements; deeper levels use reduced slice/index alphabets; boolean index arrays excluded as in the property",
-  "technique": "explicit-state BFS over operation programs on the implementation, differential against a reference model",
- },
- "C13": {
-  "text": "Every crop box of a per-axis letter product (each side separately inside / fractional / outside; 2-D full product, 3-D reduced) x constrain on/off on 9 image letters (3 classes, 2-D/3-D, uint8/float/bool, 1-5 channels), chained to depth 2 in thorough, is compared bit for bit with plain slicing incl. landmarks, mask, dtype and the refusal contract; patch extraction is run on EVERY integer centre from -2 to S+1 for 6 patch shapes x 3 offset sets x both paths against a per-pixel reference, plus fractional centres and extract/set round trips.",
-  "design_ref": "DESIGN.md 3/C13",
-  "note": "finite letter grids stand for the continuous bounds; resampling path at fractional centres compared on interior points only",
-  "technique": "exhaustive enumeration of a finite input/operation alphabet on the implementation against a slicing / per-pixel reference model (explicit-state exploration, depth 1-2)",
- },
- "C20": {
-  "text": "Rotation constructors are explored as a state machine (accumulated rotation, every sequence of angle letters up to depth 2/3 per axis and unit) against Rodrigues' formula, with the reported axis/angle required to reconstruct the matrix; axis-angle and quaternion round trips on a 29x13 axis-angle grid; about-centre transforms on 6 object letters x all transform letters with an offset alphabet; Scale factory letters; texture-coordinate corner tables on 6 image shapes.",
-  "design_ref": "DESIGN.md 3/C20",
-  "note": "continuous quantifiers decided on letter grids; open finding D4 (2-D angle sign) matched by footprint; numpy.random seeded around the 3-D axis-angle query",
-  "technique": "explicit-state BFS over constructor/composition sequences plus exhaustive enumeration of parameter letters, compared with closed-form references",
- },
- "C01": {
-  "text": "Every image kind (11 letters: Image/MaskedImage/BooleanImage, 2-D and 3-D, 1-4 channels, float64/float32/uint8/bool, all-true and sparse masks) is driven through every geometry-op letter (crop family, rescale/resize family with every rounding mode and order, zoom, rotations in all quadrants with retain_shape on/off, mirror, transform-about-centre, warp_to_shape/warp_to_mask with affine, TPS and piecewise-affine warps, pyramids); the result becomes the next state (thorough: second op from a reduced alphabet). Each step is decided pixel by pixel against an independent multilinear/nearest reference driven by the returned transform, landmark by landmark through the same transform, and mask pixel by mask pixel.",
-  "design_ref": "DESIGN.md 3/C01",
-  "note": "continuous parameters on letter sets; pixels whose interpolation support leaves the source are not compared; only the scipy interpolation path exists here; consistent re-framing of pixels+landmarks+transform is not a violation ([interp])",
-  "technique": "explicit-state exploration of op sequences on the implementation (depth 1-2), each transition checked against a reference interpolation model",
- },
-}
+NOTES = 'All verdicts come from bounded exhaustive exploration of the real menpo code (DESIGN.md). Known, unrepaired defects are listed in known_findings.json and matched by footprint predicates.'
+CHECKS = {'C01': {'design_ref': 'DESIGN.md 3/C01',
+         'note': 'continuous parameters on letter sets; pixels whose interpolation support leaves the source are not compared; only the scipy interpolation '
+                 'path exists here; consistent re-framing of pixels+landmarks+transform is not a violation ([interp])',
+         'technique': 'explicit-state exploration of op sequences on the implementation (depth 1-2), each transition checked against a reference interpolation '
+                      'model',
+         'text': 'Every image kind (11 letters: Image/MaskedImage/BooleanImage, 2-D and 3-D, 1-4 channels, float64/float32/uint8/bool, all-true and sparse '
+                 'masks) is driven through every geometry-op letter (crop family, rescale/resize family with every rounding mode and order, zoom, rotations in '
+                 'all quadrants with retain_shape on/off, mirror, transform-about-centre, warp_to_shape/warp_to_mask with affine, TPS and piecewise-affine '
+                 'warps, pyramids); the result becomes the next state (thorough: second op from a reduced alphabet). Each step is decided pixel by pixel '
+                 'against an independent multilinear/nearest reference driven by the returned transform, landmark by landmark through the same transform, and '
+                 'mask pixel by mask pixel.'},
+ 'C10': {'design_ref': 'DESIGN.md 3/C10',
+         'note': 'float64 data with a guarded well-separated spectrum (n<=11, d<=10); tolerances 1e-9..1e-11 with >=100x margin over the measured error',
+         'technique': 'explicit-state BFS over bookkeeping histories on the implementation, differential against an SVD reference model and against fresh '
+                      'builds',
+         'text': 'Every data letter (both sides of and at n=d so both pca code paths, centred/uncentred, rank-deficient, vector-backed and '
+                 'PointCloud/Image/MaskedImage-backed) is built and the static PCA identities checked against an SVD reference; the bookkeeping machine '
+                 '(n_active_components by int / numpy int / variance fraction, trim_components by int / fraction / default, invalid values) is explored '
+                 'breadth-first to depth 3 (quick) / 4 (thorough) with the pair (kept, active) as model state; after every step the identities on the active '
+                 'prefix, the variance accounting and observational equality with a model built fresh with that many components are required.'},
+ 'C13': {'design_ref': 'DESIGN.md 3/C13',
+         'note': 'finite letter grids stand for the continuous bounds; resampling path at fractional centres compared on interior points only',
+         'technique': 'exhaustive enumeration of a finite input/operation alphabet on the implementation against a slicing / per-pixel reference model '
+                      '(explicit-state exploration, depth 1-2)',
+         'text': 'Every crop box of a per-axis letter product (each side separately inside / fractional / outside; 2-D full product, 3-D reduced) x constrain '
+                 'on/off on 9 image letters (3 classes, 2-D/3-D, uint8/float/bool, 1-5 channels), chained to depth 2 in thorough, is compared bit for bit with '
+                 'plain slicing incl. landmarks, mask, dtype and the refusal contract; patch extraction is run on EVERY integer centre from -2 to S+1 for 6 '
+                 'patch shapes x 3 offset sets x both paths against a per-pixel reference, plus fractional centres and extract/set round trips.'},
+ 'C19': {'design_ref': 'DESIGN.md 3/C19',
+         'note': 'lists capped at 8 elements; deeper levels use reduced slice/index alphabets; boolean index arrays excluded as in the property',
+         'technique': 'explicit-state BFS over operation programs on the implementation, differential against a reference model',
+         'text': 'Every program of LazyList operations up to the depth bound (2 quick; 3 wide + 4 narrow thorough) over 6 base configurations is executed on '
+                 'the real LazyList and on a plain-list-of-expression-trees model; laziness is decided from an evaluation log, non-mutation by re-reading '
+                 'every live list after every step. Bounded exhaustive: no sampling.'},
+ 'C20': {'design_ref': 'DESIGN.md 3/C20',
+         'note': 'continuous quantifiers decided on letter grids; open finding D4 (2-D angle sign) matched by footprint; numpy.random seeded around the 3-D '
+                 'axis-angle query',
+         'technique': 'explicit-state BFS over constructor/composition sequences plus exhaustive enumeration of parameter letters, compared with closed-form '
+                      'references',
+         'text': 'Rotation constructors are explored as a state machine (accumulated rotation, every sequence of angle letters up to depth 2/3 per axis and '
+                 "unit) against Rodrigues' formula, with the reported axis/angle required to reconstruct the matrix; axis-angle and quaternion round trips on "
+                 'a 29x13 axis-angle grid; about-centre transforms on 6 object letters x all transform letters with an offset alphabet; Scale factory letters; '
+                 'texture-coordinate corner tables on 6 image shapes.'}}
